@@ -151,7 +151,7 @@ def _inst(tier):
             for scen in ("one", "cancel", "two_cancel_first"):
                 if scen == "two_cancel_first" and tier == "quick" and (kind in ("newthread", "threadpool") or skew != 1):
                     continue  # one private event loop per action: nothing beyond "cancel"
-                out.append({"kind": kind, "skew": skew, "scen": scen, "P": 1 if tier == "quick" else 2})
+                out.append({"kind": kind, "skew": skew, "scen": scen, "P": 1, "gran": "coarse" if tier == "quick" else "fine"})
     return out
 
 
@@ -161,7 +161,7 @@ _BASE = {}
 @harness(instances=_inst, mode=I(0, 2), d0=I(0, 2), d1=I(0, 1), c=I(0, 2), p0=I(0, 100000), pos=I(0, 100000, n=lambda i: i["P"] - 1),
          tgt=I(0, 1, n=lambda i: i["P"]), timeout=(270, 1800), stock=False)
 def h_realtime(a, inst):
-    gate.GRANULARITY = "coarse"
+    gate.GRANULARITY = inst.get("gran", "coarse")
     mode, d0 = gate.concrete(a.mode, 0, 2), gate.concrete(a.d0, 0, 2)
     if inst["scen"] == "one":
         d1, c = 0, 0
@@ -175,7 +175,7 @@ def h_realtime(a, inst):
         if mode == 0:
             return True  # modes 1 / 2 only (relative / absolute)
     vals = (mode, d0, d1, c)
-    key = (inst["kind"], inst["skew"], inst["scen"], vals)
+    key = (inst["kind"], inst["skew"], inst["scen"], inst.get("gran"), vals)
     if key not in _BASE:
         with gate.untraced():
             _BASE[key] = run_once(inst, vals, [])
@@ -242,7 +242,7 @@ BOUNDS = {"quick": "Timeout / NewThread / ThreadPool / EventLoop schedulers, one
                    "(coarse yield points of the scheduler modules, every lock/condition/timer operation, inside actions; a preemption "
                    "towards a sleeping timer thread is the move 'time passes'); ImmediateScheduler: schedule / relative (timedelta, "
                    "float) / absolute with offsets -2..2 s in quarter seconds",
-          "thorough": "2 ordered preemptions"}
+          "thorough": "the two-action scenario for every scheduler and clock model; instruction-level (fine) yield points"}
 ASSUMES = ["threading.Timer / Condition / Lock / Event are gate-aware contract stubs on a controlled clock; Scheduler.now (default_now) is "
            "the controlled scheduler clock", "TimeoutScheduler: the timer clock and the scheduler clock agree (it never re-reads now; a "
            "wall clock stepped back under a running threading.Timer is outside)", "ThreadPoolExecutor is a contract stub (submitted "
@@ -254,5 +254,5 @@ MANIFEST = {
             "clock; delays, cancellation time and the preemption schedule are solver variables under CrossHair: no action starts "
             "before its due time on the scheduler clock, none starts although dispose() returned before its due time, uncancelled "
             "actions do run.  ImmediateScheduler: synchronous execution and WouldBlockException for every positive delay.",
-    "note": "1 client thread; P<=1 (quick) / 2.",
+    "note": "1 client thread; P<=1; coarse (quick) / fine (thorough) yield points.",
 }
